@@ -211,8 +211,13 @@ def generate(rng, index, cfg):
                 # a ref whose name is also the name of a directory or file somewhere in the tree
                 name = rng.choice(["sub", "other", "a.ipynb", "z.ipynb", "deep", "notes.txt"])
             if name not in refs:
-                ops.append({"op": "git", "argv": [kind, name]})
+                if kind == "tag" and rng.random() < 0.5:
+                    ops.append({"op": "git", "argv": ["tag", "-a", "-m", "annotated " + name, name]})   # a tag object
+                else:
+                    ops.append({"op": "git", "argv": [kind, name]})
                 refs.append(name)
+                if rng.random() < 0.2:
+                    refs.append(("refs/tags/" if kind == "tag" else "refs/heads/") + name)    # another spelling
         else:
             query()
     for _ in range(rng.randint(1, 4)):
